@@ -110,7 +110,9 @@ def t_daily_spot(h):
         h.assume(ops.land(ops.compare('>', oq, 0), ops.compare('>', op, 0)))
         side = 'buy' if h.branch(h.bool(base + '.is_buy')) else 'sell'
         status = 'ACTIVE' if h.branch(h.bool(base + '.is_active')) else 'EXECUTED'
-        o = common.mk_order(h, side=side, type='LIMIT', qty=oq if side == 'buy' else ops.neg(oq), price=op, symbol=s,
+        # the order type is a finite enumeration: a resting STOP entry reserves its quote like a LIMIT one
+        otype = 'LIMIT' if h.branch(h.bool(base + '.is_limit')) else 'STOP'
+        o = common.mk_order(h, side=side, type=otype, qty=oq if side == 'buy' else ops.neg(oq), price=op, symbol=s,
                             exchange='Sandbox', reduce_only=False, status=status, id='o' + base)
         orders[s] = [o]
         if side == 'buy' and status == 'ACTIVE':
